@@ -893,38 +893,20 @@ FormatterToXML::accumDefaultEscape(
         {
             if(ch > m_maxCharacter)
             {
-                if( !m_isXML1_1 && XalanUnicode::charLSEP == ch ) 
-                {
-                    throwInvalidCharacterException(ch, getMemoryManager());
-                }
-                else
-                {
-                    writeNumberedEntityReference(ch);
-                }
+                writeNumberedEntityReference(ch);
             }
             else if(ch < SPECIALSSIZE && m_attrCharsMap[ch] == 'S')
             {
-                if(ch < 0x20 )
+                // TAB, LF and CR are the only characters below 0x20
+                // that XML 1.0 allows; XML 1.1 allows all of them as
+                // character references.
+                if(ch < 0x20 &&
+                   m_isXML1_1 == false &&
+                   ch != XalanUnicode::charHTab &&
+                   ch != XalanUnicode::charLF &&
+                   ch != XalanUnicode::charCR)
                 {
-                    if(m_isXML1_1)
-                    {
-                        writeNumberedEntityReference(ch);
-                    }
-                    else
-                    {
-                         throwInvalidCharacterException(ch, getMemoryManager());
-                    }
-                }
-                else if( XalanUnicode::charNEL == ch )
-                {
-                    if(m_isXML1_1)
-                    {
-                        writeNumberedEntityReference(ch);
-                    }
-                    else
-                    {
-                        throwInvalidCharacterException(ch, getMemoryManager());
-                    }
+                    throwInvalidCharacterException(ch, getMemoryManager());
                 }
                 else
                 {
